@@ -4,6 +4,7 @@
 //! Files written by `run`: ops.txt (one op per line), impl.out (one canonical line per op), oracle.out
 //! (`<line>\t<message>` per failed oracle predicate), meta.json (counts, build mode).
 
+mod c06;
 mod c07;
 mod c12;
 mod codecref;
@@ -83,6 +84,7 @@ fn oracle(prop: &str, op: &[&str], out: &str) -> Verdict {
     match prop {
         "C12" => c12::oracle(op, out),
         "C07" => c07::oracle(op, out),
+        "C06" => c06::oracle(op, out),
         _ => Verdict::NotApplicable,
     }
 }
@@ -91,6 +93,7 @@ fn generate(prop: &str, tier: &str, rng: &mut util::Prng) -> Vec<Case> {
     match prop {
         "C12" => c12::generate(tier, rng),
         "C07" => c07::generate(tier, rng),
+        "C06" => c06::generate(tier, rng),
         _ => {
             eprintln!("unknown property {prop}");
             std::process::exit(2);
